@@ -845,8 +845,21 @@ impl PipeSc {
     }
 
     pub fn generate(r: &mut Rng) -> PipeSc {
+        // BrokenPipe is how this world tells the writer task that its process was killed (`crash_at`), so it is not injected
+        // as a transient error here
+        const PIPE_ERR_KINDS: [ErrKind; 9] = [
+            ErrKind::Interrupted,
+            ErrKind::WouldBlock,
+            ErrKind::TimedOut,
+            ErrKind::Other,
+            ErrKind::ConnectionReset,
+            ErrKind::ConnectionAborted,
+            ErrKind::NotConnected,
+            ErrKind::InvalidData,
+            ErrKind::PermissionDenied,
+        ];
         let family = *r.pick(IO_TYS);
-        let n = 1 + r.below(6) as usize;
+        let n = if r.chance(1, 12) { r.range(7, 24) as usize } else { 1 + r.below(6) as usize };
         let profile = r.below(3);
         let values: Vec<ValSpec> = (0..n)
             .map(|_| ValSpec {
@@ -854,13 +867,21 @@ impl PipeSc {
                 size: match profile {
                     0 => r.below(4) as u32,
                     1 => r.below(40) as u32,
-                    _ => gen_size(r, false).min(400),
+                    _ => gen_size(r, false).min(if r.chance(1, 10) { 5000 } else { 400 }),
                 },
                 seed: r.next_u64(),
             })
             .collect();
+        let mut values = values;
+        if r.chance(1, 3) {
+            for i in 1..values.len() {
+                if r.chance(1, 4) {
+                    values[i] = values[i - 1].clone();
+                }
+            }
+        }
         let total: usize = values.iter().filter_map(reference_encoding).map(|p| p.len() + 4).sum();
-        let cap = *r.pick(&[1u32, 1, 2, 3, 4, 5, 7, 8, 16, 33, 64]);
+        let cap = *r.pick(&[1u32, 1, 2, 3, 4, 5, 7, 8, 16, 33, 64, 256, 4096]);
         let lane = |r: &mut Rng| -> Vec<Step> {
             let en_short = r.chance(2, 3);
             let en_pend = r.chance(1, 2);
@@ -872,7 +893,7 @@ impl PipeSc {
                     if r.below(16) < density {
                         match r.below(2) {
                             0 if en_pend => Step::Pending,
-                            1 if en_err => Step::Err(*r.pick(&[ErrKind::WouldBlock, ErrKind::TimedOut, ErrKind::Other, ErrKind::Interrupted])),
+                            1 if en_err => Step::Err(*r.pick(&PIPE_ERR_KINDS)),
                             _ => Step::Xfer(1),
                         }
                     } else if en_short {
